@@ -296,6 +296,7 @@ def run(plan, ctx):
     model = {}          # oid -> [content sha, dumps sha]
     graphs_of = {}      # program oid -> set of graph oids derived from it
     values_of = {}      # instance oid -> caller-owned arrays it was created from
+    intr_sites = set()
     call_memo = {}      # (operation, content of operands, values) -> (result digest, operand, step)
     feats = {}
     instances_of = {}
@@ -318,6 +319,7 @@ def run(plan, ctx):
             if ev.get("fired"):
                 bump("fault_fired:interrupt_in_" + op)
                 bump("intr_where:" + str(ev.get("where", "?")).split(":")[0])
+                intr_sites.add(str(ev.get("where")))
         if op == "call" and st.get("mode") in ("missing", "baddim"):
             bump("fault_configured:failing_call_" + st["mode"])
             if not ev.get("ok", True):
@@ -433,6 +435,7 @@ def run(plan, ctx):
         if model:
             checks_after += 1
         model = dict(objs)
+    stats["interruption_sites"] = sorted(intr_sites)
     nontrivial = bool(ro_on_interesting and had_mut and checks_after)
     return {"violations": viol, "stats": stats, "log": D.sha(H), "nontrivial": nontrivial}
 
